@@ -138,7 +138,11 @@ fn full_handler_tdh() {
         v.status_words.replace_tdh(Tdh::from_buf(&h[..]).unwrap());
     }
     let w: [u8; 10] = kani::any();
+    let snap0 = frame_snapshot(&v);
     v.preprocess_tdh(&w[..]);
+    let snap1 = frame_snapshot(&v);
+    assert!(snap1.0 == snap0.0, "[C09] a word handler does not move the state machine (only `advance` does)");
+    assert!(snap1.1 == snap0.1 && snap1.2 == snap0.2 && snap1.3 == snap0.3, "[C09][C02] the TDH handler leaves the stored IHW / TDT / DDW0 alone");
     assert!(!(sent_errors() > 0 && spec_tdh_sane(&w)), "[C01][C11] sane TDH is not reported by the TDH handler");
     assert!(!(sent_errors() == 0 && !spec_tdh_sane(&w)), "[C02][C09][C11] a word that is not a sane TDH is reported where a TDH is due");
     assert!(sent_total() == sent_errors() && sent_errors() <= 1, "[C01] at most one message per TDH");
@@ -227,7 +231,11 @@ fn full_handler_data_word() {
     kani::assume(id != ID_CDW || seen_data); // CDW at start of data: see full_handler_cdw
     // OB ids with connector input 7 make the lane shift overflow (finding F6): excluded here, see full_ob_check
     kani::assume(!(spec_is_ob_id(id) && !spec_data_id_valid(id)) || !all);
+    let snap0 = frame_snapshot(&v);
     v.preprocess_data_word(&w[..]);
+    let snap1 = frame_snapshot(&v);
+    assert!(snap1.0 == snap0.0, "[C09] a word handler does not move the state machine (only `advance` does)");
+    assert!(snap1.1 == snap0.1 && snap1.2 == snap0.2 && snap1.3 == snap0.3, "[C09][C11] a data word changes no stored status word");
     let mask = bits(w80(&ihw), 27, 0) as u32;
     let lane_viol = if spec_is_ib_id(id) {
         (mask >> spec_ib_lane(id)) & 1 == 0
@@ -265,7 +273,11 @@ fn full_handler_cdw() {
     }
     let mut w: [u8; 10] = kani::any();
     w[9] = ID_CDW;
+    let snap0 = frame_snapshot(&v);
     v.preprocess_data_word(&w[..]);
+    let snap1 = frame_snapshot(&v);
+    assert!(snap1.0 == snap0.0, "[C09] a word handler does not move the state machine (only `advance` does)");
+    assert!(snap1.1 == snap0.1 && snap1.2 == snap0.2 && snap1.3 == snap0.3, "[C09] a calibration data word changes no stored IHW / TDT / DDW0");
     let viol = all && has_prev && bits(w80(&w), 47, 0) != bits(w80(&p), 47, 0) && bits(w80(&w), 71, 48) != 0;
     assert!((sent_errors() > 0) == viol, "[C01][C02] CDW is reported iff its user fields changed and its index is not 0 (E81)");
     if all {
